@@ -55,7 +55,7 @@ def main(pid, tier, replay_path=None):
     try:
         with vlib.Scratch('srv') as sc:
             binary = vlib.build_harness(sc, '.', instrumented_pool=True)
-            scs = [json.load(open(replay_path))['scenario']] if replay_path else gen(500 if tier == 'quick' else 50000, seed) + focus(24 if tier == 'quick' else 600, seed) + witnesses()
+            scs = [json.load(open(replay_path))['scenario']] if replay_path else gen(500 if tier == 'quick' else 50000, seed) + focus(24 if tier == 'quick' else 300, seed) + witnesses()
             res, crashed = conn.run_scenarios(sc, binary, scs, 'v', procs=14, test='TestVerifServerScenarios')
             mcov, mscs = {}, []
             if not replay_path:
@@ -100,7 +100,7 @@ def main(pid, tier, replay_path=None):
                 # every schedule point of the focus shapes
                 extra += conn.stall_variants([s for s in scs if s.get('focus')], res, per_scenario=400, rnd=random.Random(seed + 1), skip_actors=())
                 # windows: one actor held at a point until another is in the middle of something (two connections: accept vs sweep)
-                extra += conn.window_variants([s for s in scs if s.get('focus') and len(s.get('clients', [])) > 1], res, per_scenario=150 if tier == 'quick' else 400, rnd=random.Random(seed + 2), prefer=({60, 61, 62}, 'shutdown'))
+                extra += conn.window_variants([s for s in scs if s.get('focus') and len(s.get('clients', [])) > 1], res, per_scenario=150 if tier == 'quick' else 200, rnd=random.Random(seed + 2), prefer=({60, 61, 62}, 'shutdown'))
                 res2, crashed2 = conn.run_scenarios(sc, binary, extra, 'w', procs=14, test='TestVerifServerScenarios')
                 scs = scs + extra + mscs
                 res.update(res2)
